@@ -181,7 +181,14 @@ let run_json_enc (payload : string) : string =
     | M.JPanicked (c, n) -> ("panic", c, int_of_nat n)
     | M.JStarved (c, _) -> ("starved", c, List.length ts) in
   let repr = List.for_all (fun t -> M.json_repr t.M.tv) ts in
-  Printf.sprintf "%s %d %s %s | ctx: %s | repr: %d" cls used (hex_or_dash (List.concat out)) (chunk_lens out)
+  let rt = if cls <> "fin" then "" else begin
+    let bs = List.concat out @ List.map (fun c -> byte_tab.(Char.code c)) [' '; '['; '7'; ']'] in
+    let total = List.length bs in
+    match M.jdec_run bs with
+    | M.JDOk (toks, rest) -> Printf.sprintf " | rt: ok @%d %s" (total - List.length rest) (print_tokens toks)
+    | M.JDFail (e, toks) -> Printf.sprintf " | rt: err %s %d" (derr_name e) (List.length toks)
+    | M.JDOutOfFuel _ -> " | rt: hang" end in
+  Printf.sprintf "%s %d %s %s%s | ctx: %s | repr: %d" cls used (hex_or_dash (List.concat out)) (chunk_lens out) rt
     (ctx_verdict M.key_json ts) (if repr then 1 else 0)
 
 let run_pretty_enc (payload : string) : string =
@@ -200,7 +207,11 @@ let run_json_dec (payload : string) : string =
     | M.JDOk (toks, rest) -> go (k - 1) rest ((Printf.sprintf "ok @%d %s" (total - List.length rest) (print_tokens toks)) :: acc)
     | M.JDFail (e, toks) -> List.rev ((Printf.sprintf "err %s %d" (derr_name e) (List.length toks)) :: acc)
     | M.JDOutOfFuel _ -> List.rev ("hang" :: acc) in
-  String.concat " ;; " (go 4 bs [])
+  let spec = match M.jparse_item true bs with
+    | M.POk (n, rest) -> Printf.sprintf "ok @%d %s" (total - List.length rest) (print_tokens (M.flatten n))
+    | M.PErr e -> "err " ^ derr_name e
+    | M.PFuel -> "fuel" in
+  String.concat " ;; " (go 4 bs []) ^ " | spec: " ^ spec
 
 let dispatch (suite : string) (payload : string) : string =
   match suite with
